@@ -13,7 +13,7 @@ CHECKS = {
          "CallProgressive's sender side (progressive call invocations driven by the caller) is only exercised through Call; the scripted router always answers CANCEL (an unanswered CANCEL legitimately yields the reply-timeout error instead of the context's)"),
  "C17": ("bubble", "exploration",
          "real client.Client against a hostile scripted router in a bubble; hostile value pool in every field/detail/argument, optional serializer round trip for wire types; liveness probe after every burst; worker crash attribution by the driver",
-         "runtime monitor: after a normal setup (3 procedures, 2 subscriptions) and with 3-6 API calls left pending, the router sends bursts of 20-40 hostile messages (all 24 message types, templates with hostile values, payload-passthru details of every type, ids of pending requests/live invocations/unknown, duplicate and triplicate invocations, progressive chunks, wrong-type and duplicate replies placed at 0..3T around the client's timers); after each burst a new Subscribe answered properly must succeed and a valid INVOCATION must be answered (the client keeps processing), every API call must have returned, the receive goroutine must be back in its select; endings by GOODBYE/ABORT/drop (also mid-burst), Close answered/unanswered/with calls pending: Done() closed, later API calls return, Close returns, handler entries == exits, no client goroutine one virtual hour later; a panic in any client goroutine kills the worker and is attributed to the case",
+         "runtime monitor: after a normal setup (3 procedures, 2 subscriptions) and with 3-6 API calls left pending, the router sends bursts of 20-40 hostile messages (all 24 message types, templates with hostile values, payload-passthru details of every type, ids of pending requests/live invocations/unknown, duplicate and triplicate invocations, progressive chunks, wrong-type and duplicate replies placed at 0..3T around the client's timers; every 4th case the router never answers CANCEL and streams RESULTs for the cancelled request for 12 T); after each burst a new Subscribe answered properly must succeed and a valid INVOCATION must be answered (the client keeps processing), every API call must have returned, the receive goroutine must be back in its select; endings by GOODBYE/ABORT/drop (also mid-burst), Close answered/unanswered/with calls pending: Done() closed, later API calls return, Close returns, handler entries == exits, no client goroutine one virtual hour later; a panic in any client goroutine kills the worker and is attributed to the case",
          "handlers used are well-behaved (return when their context ends, return promptly on progressive chunks); Close concurrent with API calls that have not yet sent their request is not exercised (the property speaks of router-side inputs); socket transports under the client are covered by C15, here messages are only round-tripped through the serializers"),
  "C15": ("bubble", "exploration",
          "incremental wire-stream checker on the puppet side, exhaustive rawsocket handshake tables (server side in the bubble, client side over loopback TCP), size-boundary/PING/cut/fault workloads, transport-differential replay",
@@ -24,8 +24,8 @@ CHECKS = {
          "runtime monitor: sessions stop reading in every role (subscriber, meta subscriber, callee, caller) with small queues and socket buffers while readers exchange traffic; each reply/delivery to a reader must carry the virtual timestamp of its request (the quiescence point of the same instant), except for a callee that yielded to a blocked caller, which is held for at most the result-retry period; resumed sessions drain at most their queue bound; the bubble's all-blocked detector and a final drain decide freedom from wait cycles on the schedules produced; every 4th case runs 6-8 closed loops concurrently (register/unregister and subscribe/unsubscribe churn, meta API callers, publisher, caller) and requires every loop to complete; every 16th case uses the live engine (router.RawSocketServer / router.WebsocketServer on unix and TCP sockets with OutQueueSize 1/4/16/default, the project's client transports): the messages kept for a subscriber that stopped reading are counted after it resumes and bounded by the configured queue + messages in hand + socket buffers, while the publisher's acknowledged publications (closed loop) must all be acknowledged",
          "the router's own meta session counts as a callee for the documented yield-retry exception; exact queue accounting only for in-process stalled peers"),
  "C08": ("bubble", "exploration",
-         "burst mode (no quiescence between concurrent senders) with unique (sender, counter) tokens; closed-loop callers and closed-loop register/unregister churn so that calls reach the dealer throughout; topics with event history; a caller blocked for 5 virtual seconds during progressive results; offline ordering/bracket/completeness checker over per-receiver logs",
-         "runtime monitor: publishers, callers, reactive callees and churning subscribers/callees run concurrently over non-local transports with GOMAXPROCS varied; the per-receiver logs are checked offline for per-(publisher,topic,subscription) and per-(caller,callee) monotonicity, progressive-result order and the SUBSCRIBED/UNSUBSCRIBED and REGISTERED/UNREGISTERED brackets; evidence reports distinct interleavings seen",
+         "burst mode (no quiescence between concurrent senders) with unique (sender, counter) tokens; closed-loop callers and closed-loop register/unregister churn so that calls reach the dealer throughout; topics with event history; a caller blocked for 5 virtual seconds during progressive results; a real client.Client subscriber (ConnectLocal, SubscribeChan, channel capacity 0-2) with a reader stalling up to 3 x the response timeout; offline ordering/bracket/completeness checker over per-receiver logs",
+         "runtime monitor: publishers, callers, reactive callees and churning subscribers/callees run concurrently over non-local transports with GOMAXPROCS varied; the per-receiver logs are checked offline for per-(publisher,topic,subscription) and per-(caller,callee) monotonicity, progressive-result order and the SUBSCRIBED/UNSUBSCRIBED and REGISTERED/UNREGISTERED brackets; what an application reads from a client.SubscribeChan channel behind a stalling reader must increase per publisher (OR8); evidence reports distinct interleavings seen",
          "schedules not produced are not covered; queues are sized so that legal overflow drops cannot look like reordering"),
  "C06": ("bubble", "fault_enumeration",
          "join storm at shutdown (30-150 clients sending HELLO as Close/RemoveRealm runs, GOMAXPROCS 1/2/4); a client on an application-provided unbuffered peer whose WELCOME is in flight at the shutdown; Close/RemoveRealm injected at every step boundary and inside every step of a script; returns / no panic for 2 virtual hours / GOODBYE-or-EOF / clean refusal of later attaches / no goroutine left / bystander realm served",
